@@ -601,7 +601,8 @@ impl RustCodeGenerator {
                     } else {
                         Cow::Owned(format!("{}_{}", field.to_uppercase(), name))
                     },
-                    r#type,
+                    // a named number of an optional component is a plain number
+                    r#type.as_no_option(),
                     value,
                     1,
                 ));
